@@ -155,6 +155,32 @@ func cmdVerify(repo, root string, args []string) int {
 			}
 		}
 	}
+	for _, l := range w.Lemmas {
+		match := len(fs.Args()) == 0
+		for _, a := range fs.Args() {
+			if strings.Contains(l.Pkg+".lemma."+l.Name, a) {
+				match = true
+			}
+		}
+		if !match {
+			continue
+		}
+		rep := w.VerifyLemma(l)
+		dischargeAll(rep.Obls, time.Duration(*timeout)*time.Second, 8, allSolvers)
+		for _, e := range rep.Errors {
+			fmt.Println("   ERROR:", e)
+			bad++
+		}
+		for _, o := range rep.Obls {
+			if o.Result != "unsat" && o.Result != "trivial" {
+				bad++
+			}
+			if o.Result != "unsat" || *verbose {
+				fmt.Printf("   %-8s %s -- %s\n", o.Result, o.Name, o.Text)
+			}
+		}
+		fmt.Printf("lemma %-50s obligations=%d\n", shortKey(rep.Key), len(rep.Obls))
+	}
 	if bad > 0 {
 		return 1
 	}
